@@ -151,6 +151,137 @@ def gen_ops(rng, T, param, profile, n):
     return ops
 
 
+# ------------------------------------------------------------------ directed: representation states of the wait queue
+# LockManagerWaitQueue has four representations: inline array only (fastQueue, ringQueue == nil), inline array followed
+# by a ring (the array overflowed at cap 143 full of live waiters: ringQueue != nil, fastIndex < len(fastQueue)),
+# ring only (the array part drained), priority ring (fastIndex == -1).  Every maintenance operation
+# (RePushPriorityRingQueue, Reset, the compaction / growth / switch inside Push) is driven from every one of them, with
+# and without tombstoned (timeouted / acked) entries and nil cells left by Pop below fastIndex.
+WAIT_STATES = ["empty", "fast", "fast-popped", "fast-full", "mixed", "mixed-popped", "ring", "ring-wrapped", "prio"]
+WAIT_MAINT = ["y", "y", "y", "e", "P", "yy"]
+FAST_CAPS = [8, 16, 32, 64, 143]
+
+
+def gen_wait_state_case(rng, cid, rounds=None):
+    """one W case = a few rounds of: build a target representation state, mark tombstones, dump, maintenance op,
+    observe, continue in the new representation, drain"""
+    ops = []
+    nxt = [1]
+    inq = []
+    plan = []
+    param = 1 if rng.random() < 0.1 else 0
+    use_prio = rng.random() < 0.8
+
+    def push(k, prio_ok=True):
+        for _ in range(k):
+            i = nxt[0]
+            nxt[0] += 1
+            if use_prio and prio_ok and rng.random() < 0.5:
+                ops.append("P%d.%d" % (i, rng.choice([0, 1, 1, 2, 3, 3, 5, 255])))
+            else:
+                ops.append("P%d" % i)
+            inq.append(i)
+
+    def pop(k):
+        for _ in range(k):
+            ops.append("p")
+            if inq:
+                inq.pop(0)
+
+    for rd in range(rounds or rng.randint(1, 3)):
+        state = rng.choice(WAIT_STATES)
+        maint = rng.choice(WAIT_MAINT)
+        tomb = rng.choice(["none", "none", "fast", "ring", "both", "all"])
+        plan.append("%s/%s/%s" % (state, maint, tomb))
+        # -- build the state (from whatever is left of the previous round: start with a Reset most of the time)
+        if rd > 0 and rng.random() < 0.8:
+            ops.extend(["i", "e"])
+            del inq[:]
+        if state == "empty":
+            if rng.random() < 0.5:
+                push(rng.randint(1, 9))
+                pop(len(inq))
+        elif state == "fast":
+            push(rng.choice([1, 2, 7, 8, 9, 15, 17, 40, 100, 142]))
+        elif state == "fast-popped":
+            push(rng.choice([3, 8, 9, 16, 33, 70, 143]))
+            pop(rng.randint(1, max(1, len(inq) - 1)))
+        elif state == "fast-full":
+            push(rng.choice(FAST_CAPS))
+            if rng.random() < 0.5:
+                pop(rng.randint(1, 5))
+        elif state in ("mixed", "mixed-popped"):
+            push(143 - len(inq) if len(inq) < 143 else 0)
+            push(rng.choice([1, 1, 2, 5, 20, 63, 64, 65, 80, 150]))
+            if state == "mixed-popped":
+                pop(rng.choice([1, 2, 50, 100, 141, 142]))
+        elif state in ("ring", "ring-wrapped"):
+            push(143 - len(inq) if len(inq) < 143 else 0)
+            push(rng.choice([1, 3, 30, 64, 70]))
+            pop(143 + rng.choice([0, 0, 1, 2]))
+            if state == "ring-wrapped":
+                for _ in range(rng.randint(1, 3)):
+                    push(rng.randint(10, 60))
+                    pop(rng.randint(5, 40))
+        elif state == "prio":
+            push(rng.choice([1, 5, 20, 150]))
+            ops.append("y")
+            push(rng.choice([0, 3, 17, 40]))
+        # -- tombstones
+        if tomb != "none" and inq:
+            n = len(inq)
+            if tomb == "fast":
+                cand = inq[:min(n, 143)]
+            elif tomb == "ring":
+                cand = inq[143:] or inq
+            else:
+                cand = inq
+            k = len(cand) if tomb == "all" else rng.randint(1, max(1, min(len(cand), 12)))
+            for j in rng.sample(cand, min(k, len(cand))):
+                ops.append("%s%d" % (rng.choice("TA"), j))
+        ops.extend(["d", "n"])
+        # -- the maintenance operation
+        if maint == "P":
+            push(rng.choice([1, 1, 2, 10]))
+        elif maint == "yy":
+            ops.extend(["y", "d", "y"])
+        else:
+            ops.append(maint)
+            if maint == "e":
+                del inq[:]
+        ops.extend(["d", "n", "i", "h", "m"])
+        # -- continue in the new representation, then drain
+        push(rng.choice([0, 1, 3, 9]))
+        ops.extend(["n", "i"])
+        if rng.random() < 0.7:
+            pop(len(inq) + 2)
+            ops.append("n")
+    ops.extend(["h", "m", "n", "i", "d", "r"])
+    line = "%s W %d %s" % (cid, param, " ".join(ops))
+    return dict(id=cid, T="W", param=param, ops=ops, profile="wait-states", nops=len(ops), line=line, plan=plan)
+
+
+def wait_state_of_dump(tok):
+    """classify a W dump  d{W;F<len>,<cap>|F-;<fastIndex>;N|R<len>,<cap>,<index>|Q..}  into a representation state"""
+    m = re.fullmatch(r"d\{W;(F-|F(\d+),(\d+));(-?\d+);(N|R(\d+),(\d+),(\d+)|Q.*)\}", tok)
+    if not m:
+        return None
+    flen = int(m.group(2)) if m.group(2) is not None else 0
+    fidx = int(m.group(4))
+    ring = m.group(5)
+    if ring.startswith("Q"):
+        return "prio"
+    fast_live = fidx >= 0 and fidx < flen
+    if ring == "N":
+        if not fast_live:
+            return "empty"
+        return "fast-popped" if fidx > 0 else "fast"
+    ring_live = int(m.group(6)) - int(m.group(8)) > 0
+    if fast_live:
+        return ("mixed" if fidx == 0 else "mixed-popped") if ring_live else "fast+emptyring"
+    return "ring" if ring_live else "emptyring"
+
+
 # ------------------------------------------------------------------ monitor
 def parse_nodes(tok):
     m = re.fullmatch(r"i(\d+)\[(.*)\]", tok)
